@@ -23,6 +23,7 @@ package tally
 import (
 	"fmt"
 	"math"
+	"runtime"
 	"sort"
 	"sync"
 	"sync/atomic"
@@ -104,7 +105,11 @@ func (c *counter) snapshot() int64 {
 }
 
 type gauge struct {
-	updated     uint64
+	// seq is incremented before and after every store of curr: it is odd while
+	// an Update is storing its value and even otherwise, so that a report can
+	// tell which value it read and whether it has delivered that value before.
+	seq         uint64
+	reported    uint64
 	curr        uint64
 	cachedGauge CachedGauge
 }
@@ -114,23 +119,67 @@ func newGauge(cachedGauge CachedGauge) *gauge {
 }
 
 func (g *gauge) Update(v float64) {
+	atomic.AddUint64(&g.seq, 1)
 	atomic.StoreUint64(&g.curr, math.Float64bits(v))
-	atomic.StoreUint64(&g.updated, 1)
+	atomic.AddUint64(&g.seq, 1)
 }
 
 func (g *gauge) value() float64 {
 	return math.Float64frombits(atomic.LoadUint64(&g.curr))
 }
 
+// unreported returns the gauge's value if an Update has completed since the
+// value delivered last. It waits for an Update that is in the middle of storing
+// its value, so that one update is never taken twice (once through its value,
+// once through its completion) and a completed update is never skipped.
+func (g *gauge) unreported() (float64, bool) {
+	const maxSpins = 16
+
+	for spins := 0; ; spins++ {
+		var (
+			seq      = atomic.LoadUint64(&g.seq)
+			reported = atomic.LoadUint64(&g.reported)
+		)
+
+		if spins == maxSpins {
+			// n.b. Updates keep arriving: deliver what is there now. The
+			//      update in flight overlaps this delivery and is taken, as
+			//      a new one, by the next report.
+			seq &^= 1
+			if seq == reported {
+				return 0, false
+			}
+			atomic.StoreUint64(&g.reported, seq)
+			return g.value(), true
+		}
+
+		if seq&1 == 1 {
+			runtime.Gosched()
+			continue
+		}
+		if seq == reported {
+			return 0, false
+		}
+
+		v := g.value()
+		if atomic.LoadUint64(&g.seq) != seq {
+			continue
+		}
+
+		atomic.StoreUint64(&g.reported, seq)
+		return v, true
+	}
+}
+
 func (g *gauge) report(name string, tags map[string]string, r StatsReporter) {
-	if atomic.SwapUint64(&g.updated, 0) == 1 {
-		r.ReportGauge(name, tags, g.value())
+	if v, ok := g.unreported(); ok {
+		r.ReportGauge(name, tags, v)
 	}
 }
 
 func (g *gauge) cachedReport() {
-	if atomic.SwapUint64(&g.updated, 0) == 1 {
-		g.cachedGauge.ReportGauge(g.value())
+	if v, ok := g.unreported(); ok {
+		g.cachedGauge.ReportGauge(v)
 	}
 }
 
